@@ -10,7 +10,7 @@ ID_MENUS = {
     'plain': (['b10', 'b9', 'c'], ['S2', 'S10', 'z']),
     'awkward': (['a b', 'x#y', 'q"1'], ['s 1', 'é/ü', '1e5']),
 }
-TAXA = [['k__Bacteria', 'p__Firmicutes'], ['k__Archaea', '', ''], ['', 's__x'], ['single level']]
+TAXA = [['[Eubacterium] rectale', 'g__[Ruminococcus]'], ['k__Archaea', '', ''], ['', 's__x'], ['k__Bacteria', 'p__Firmicutes'], ['single level']]
 
 
 def _parts(x):
@@ -21,7 +21,7 @@ def _split_lines(doc):
     return doc.split('\n')
 
 
-def _check_writer(lines, a, header_value, md_texts, sig):
+def _check_writer(lines, a, header_value, md_texts, sig, first_col='#OTU ID'):
     """the emitted text against the classic template; returns the list of per-cell terms or None"""
     nr, nc = len(a.obs_ids), len(a.samp_ids)
     if len(lines) != 2 + nr:
@@ -30,7 +30,7 @@ def _check_writer(lines, a, header_value, md_texts, sig):
     if lines[0] != '# Constructed from biom file':
         fail('tsv:comment-line', repr(lines[0]), **sig)
         return False
-    want_header = '#OTU ID\t' + '\t'.join(a.samp_ids) + ('\t' + header_value if header_value else '')
+    want_header = first_col + '\t' + '\t'.join(a.samp_ids) + ('\t' + header_value if header_value else '')
     if lines[1] != want_header:
         fail('tsv:header', f"{lines[1]!r} vs {want_header!r}", **sig)
         return False
@@ -95,6 +95,9 @@ def h_roundtrip(nr, nc, idk, with_md, concrete_values=False):
     fmt = (lambda x: '; '.join(x))
     direct = flag('direct_io')
     kw = dict(header_key='taxonomy', header_value='Consensus Lineage', metadata_formatter=fmt) if with_md else {}
+    first_col = pick(['#OTU ID', 'Feature ID'], 'first-column-name')       # the header line need not start with '#'
+    if first_col != '#OTU ID':
+        kw['observation_column_name'] = first_col
     if direct:
         fh = T.SFile() if b.mode == 'sym' else __import__('io').StringIO()
         _, e = call(lambda: t.to_tsv(direct_io=fh, **kw))
@@ -111,7 +114,7 @@ def h_roundtrip(nr, nc, idk, with_md, concrete_values=False):
         return
     lines = _split_lines(doc)
     md_texts = ['; '.join(m['taxonomy']) for m in a.obs_md] if with_md else None
-    if not _check_writer(lines, a, 'Consensus Lineage' if with_md else None, md_texts, sig):
+    if not _check_writer(lines, a, 'Consensus Lineage' if with_md else None, md_texts, sig, first_col):
         return
     # ---- read the very same text back
     form, via = pick([('list-of-lines', 'from_tsv'), ('handle', 'from_tsv'), ('list-of-lines', 'parse_biom_table'),
